@@ -13,7 +13,8 @@ CFG = dict(
          "entry count, BlTxID >= id, empty key), Sync, AllowCommitUpto, DiscardPrecommittedTxsSince, "
          "SetExternalCommitAllowance, close/reopen, index flush/compaction in between; plus fixed directed scripts "
          "(Discard+Precommit+Reopen, cLogBuf full inside performPrecommit also followed by a replicated tx, sync() stopping "
-         "midway then reopen, waiter of a discarded tx, MaxActiveTransactions in synced mode; falsifier-only: stale commit-log "
+         "midway then reopen, waiter of a discarded tx, MaxActiveTransactions in synced mode, cancelled calls followed by valid "
+         "commits with MaxTxEntries 2 and embedded values (shrunk from thorough seed 2 script 202); falsifier-only: stale commit-log "
          "tail with small chunk files, with and without preallocation) and a concurrent phase (3..7 goroutines committing, a monitor goroutine re-reading, the order of the "
          "returned ids and of the value offsets fed to the model as the interleaving). After EVERY step the whole "
          "committed history is re-read (ReadTx with integrity check, ReadValue, CommittedAlh, LastPrecommittedTxID) and "
@@ -61,6 +62,12 @@ CFG = dict(
         "256, preallocation) after which store.Open fails with 'corrupted transaction log: size is too small' (before 8728288: "
         "committed id 4 -> 5 and a broken PrevAlh link): reported on every run as a KNOWN-FINDING (harness level). The same "
         "history without preallocation was fixed by 09014a8 and stays in the check as a regression scenario",
+        "harness timing: a commit call runs in its own goroutine until it returns or its precommit is visible; only a call "
+        "that can wait for ANOTHER transaction before its precommit (ReplicateTx with an id beyond the next one) gets the "
+        "400 ms limit after which its context is cancelled (clock started when the goroutine runs, and at least 2000 polls); "
+        "every other call gets 90 s and exceeding that is reported as a finding. (A uniform 400 ms limit once cancelled a "
+        "valid call before newOngoingTx's ctx.Err() check on a loaded machine -- a one-off correspondence disagreement of the "
+        "harness, not of the store: the recorded history is exactly the model's run of the same script with that call cancelled)",
     ],
 )
 
